@@ -2198,4 +2198,235 @@ theorem account_other (r : Res) (hr : ∀ b, r ≠ .value b) (excs : List Exc) (
   | reentry => exact ⟨(key false).1, (key false).2.1, (key false).2.2, rfl⟩
   | stalejunk => exact ⟨(key false).1, (key false).2.1, (key false).2.2, rfl⟩
 
+/-! ## the clauses of the executable spec hold of the model's trace -/
+
+/-- the account `_run_core` draws up at the end -/
+def finalAccount (p : Prog) : Account :=
+  account (getResult (afterIter p).sp) (afterIter p).u.excs (afterIter p).u.logged (afterIter p).u.dropped
+    (!(leftovers (afterIter p)).isEmpty)
+
+theorem model_fields (p : Prog) :
+    (model p).events = [.startTest] ++ outcomeEvents (finalAccount p) ++ [.stopTest] ∧
+    (model p).stopRequested = (finalAccount p).stopReq ∧ (model p).raised = false ∧
+    (model p).stages = (afterIter p).u.stages ∧
+    (model p).leftover = ((afterIter p).calls.filter isLeftover).length ∧ (model p).pending = 0 ∧
+    (model p).obsRestored = (afterObs p == List.range p.nObs) := ⟨rfl, rfl, rfl, rfl, rfl, rfl, rfl⟩
+
+/-- exactly one outcome, and which -/
+theorem events_shape (p : Prog) (pre : List (SName × Stage)) (hf : FinalSem p (afterIter p) pre) :
+    ∃ X, (model p).events = [.startTest, X, .stopTest] ∧ isOutcome X = true ∧
+      (X = .success ↔ (finalAccount p).successful = true) ∧
+      ((∀ b, getResult (afterIter p).sp ≠ .value b) → X = .error) := by
+  obtain ⟨⟨hi, _⟩, _, _⟩ := end_state p
+  rw [(model_fields p).1]
+  by_cases hv : ∃ b, getResult (afterIter p).sp = .value b
+  · obtain ⟨b, hb⟩ := hv
+    have hsucc : (afterIter p).sp.success = some b := by
+      rcases result_cases hi with h | h | h
+      · rw [h.2.2] at hb; cases hb
+      · rw [h.2.2] at hb; cases hb
+      · obtain ⟨b', hb1, hb2⟩ := h.2
+        rw [hb2] at hb; injection hb with hb; subst hb; exact hb1
+    obtain ⟨hb1, _, _⟩ := hf.recd b hsucc
+    obtain ⟨_, a2, a3⟩ := account_value b (afterIter p).u.excs (afterIter p).u.logged (afterIter p).u.dropped
+      (!(leftovers (afterIter p)).isEmpty)
+    have hb1' : b = 1 ↔ (afterIter p).u.excs = [] := by
+      have := hf.book.excs
+      cases hfl : (afterIter p).u.fails with
+      | true =>
+        rw [hfl] at hb1 this
+        simp only [if_true] at hb1
+        constructor
+        · intro h; omega
+        · intro h; exact absurd h (this.mpr rfl)
+      | false =>
+        rw [hfl] at hb1 this
+        simp only [Bool.false_eq_true, if_false] at hb1
+        constructor
+        · intro _
+          cases hex : (afterIter p).u.excs with
+          | nil => rfl
+          | cons a l => have := this.mp (by rw [hex]; simp); cases this
+        · intro _; exact hb1
+    have hiff : (finalAccount p).successful = true ↔ (finalAccount p).excs = [] := by
+      simp only [finalAccount, hb]
+      rw [a2, a3, hb1']
+    simp only [outcomeEvents]
+    by_cases hs : (finalAccount p).successful = true
+    · have he := hiff.mp hs
+      refine ⟨.success, by simp [hs, he], rfl, by simp [hs], fun h => absurd hb (h b)⟩
+    · have he : (finalAccount p).excs ≠ [] := fun h => hs (hiff.mpr h)
+      have hs' : (finalAccount p).successful = false := by simpa using hs
+      obtain ⟨o1, o2⟩ := isOutcome_outcomeOf (finalAccount p).excs
+      refine ⟨outcomeOf (finalAccount p).excs, ?_, o1, ?_, fun h => absurd hb (h b)⟩
+      · simp [hs', he]
+      · constructor
+        · intro h; exact absurd h o2
+        · intro h; rw [hs'] at h; cases h
+  · have hv' : ∀ b, getResult (afterIter p).sp ≠ .value b := fun b hb => hv ⟨b, hb⟩
+    obtain ⟨o1, o2, o3, _⟩ := account_other _ hv' (afterIter p).u.excs (afterIter p).u.logged (afterIter p).u.dropped
+      (!(leftovers (afterIter p)).isEmpty)
+    refine ⟨.error, ?_, rfl, ?_, fun _ => rfl⟩
+    · simp only [outcomeEvents, finalAccount, o1, Bool.false_eq_true, if_false, List.nil_append]
+      have : (account (getResult (afterIter p).sp) (afterIter p).u.excs (afterIter p).u.logged (afterIter p).u.dropped
+          (!(leftovers (afterIter p)).isEmpty)).excs.isEmpty = false := by
+        cases he : (account (getResult (afterIter p).sp) (afterIter p).u.excs (afterIter p).u.logged (afterIter p).u.dropped
+          (!(leftovers (afterIter p)).isEmpty)).excs with
+        | nil => exact absurd he o2
+        | cons _ _ => rfl
+      simp [this, o3]
+    · constructor
+      · intro h; cases h
+      · intro h; simp only [finalAccount] at h; rw [o1] at h; cases h
+
+theorem outcome_of_shape {t : Trace} {X : Ev} (h : t.events = [.startTest, X, .stopTest]) : outcome t = some X := by
+  simp [outcome, h]
+
+theorem leftovers_empty_iff (w : W) (hs : w.sels = []) : (leftovers w).isEmpty = true ↔ w.calls = [] := by
+  simp only [leftovers, hs, List.map_nil, List.append_nil, List.isEmpty_iff, List.map_eq_nil_iff]
+
+/-- the value case: what the recorded success and the chain state say about the stages that ran -/
+theorem value_meaning (p : Prog) (pre : List (SName × Stage)) (hf : FinalSem p (afterIter p) pre) (b : Nat)
+    (hb : (afterIter p).sp.success = some b) :
+    ((finalAccount p).successful = true ↔
+      ((pre.map (·.2)).all (fun st => behOk st.beh) = true ∧ (sidesOf pre).contains .expect = false ∧
+       loggedLeft (sidesOf pre) = 0 ∧ (sidesOf pre).contains .dropfailed = false ∧
+       ((afterIter p).calls.filter isLeftover).length = 0)) := by
+  obtain ⟨⟨hi, _⟩, _, _⟩ := end_state p
+  have hres : getResult (afterIter p).sp = .value b := by
+    rcases result_cases hi with h | h | h
+    · rw [h.2.1] at hb; cases hb
+    · rw [h.2.1] at hb; cases hb
+    · obtain ⟨b', hb1, hb2⟩ := h.2
+      rw [hb1] at hb; injection hb with hb; subst hb; exact hb2
+  obtain ⟨hb1, hfails, hleft⟩ := hf.recd b hb
+  obtain ⟨_, a2, _⟩ := account_value b (afterIter p).u.excs (afterIter p).u.logged (afterIter p).u.dropped
+    (!(leftovers (afterIter p)).isEmpty)
+  simp only [finalAccount, hres]
+  rw [a2]
+  have hb1' : b = 1 ↔ (afterIter p).u.fails = false := by
+    cases hfl : (afterIter p).u.fails <;> simp [hfl] at hb1 ⊢ <;> omega
+  have hfails' : (afterIter p).u.fails = false ↔
+      ((pre.map (·.2)).all (fun st => behOk st.beh) = true ∧ (sidesOf pre).contains .expect = false) := by
+    rw [← hf.book.forced]
+    constructor
+    · intro h
+      have hn : ¬ ((∃ x ∈ pre, behOk x.2.beh = false) ∨ (afterIter p).u.forced = true) := by
+        intro h'; have := hfails.mpr h'; rw [h] at this; cases this
+      refine ⟨?_, by cases hfo : (afterIter p).u.forced with | false => rfl | true => exact absurd (Or.inr hfo) hn⟩
+      simp only [List.all_map, List.all_eq_true]
+      intro x hx
+      cases hok : behOk x.2.beh with
+      | true => simpa using hok
+      | false => exact absurd (Or.inl ⟨x, hx, hok⟩) hn
+    · rintro ⟨h1, h2⟩
+      cases hfl : (afterIter p).u.fails with
+      | false => rfl
+      | true =>
+        rcases hfails.mp hfl with ⟨x, hx, hok⟩ | h
+        · simp only [List.all_map, List.all_eq_true] at h1
+          have := h1 x hx; simp [hok] at this
+        · rw [h2] at h; cases h
+  have hjunk : (!(leftovers (afterIter p)).isEmpty) = false ↔ ((afterIter p).calls.filter isLeftover).length = 0 := by
+    have hse := (static_end p).1
+    have hall : (afterIter p).calls.filter isLeftover = (afterIter p).calls :=
+      List.filter_eq_self.mpr hleft
+    rw [hall]
+    simp only [Bool.not_eq_false', leftovers_empty_iff _ hse, List.length_eq_zero_iff]
+  rw [hb1', hfails', hf.book.logged, hf.book.dropped, hjunk]
+  constructor
+  · rintro ⟨⟨h1, h2⟩, h3, h4, h5⟩; exact ⟨h1, h2, h3, h4, h5⟩
+  · rintro ⟨h1, h2, h3, h4, h5⟩; exact ⟨⟨h1, h2⟩, h3, h4, h5⟩
+
+/-- **Headline.** The executable specification holds of the model's trace, for every program. -/
+theorem holds_model (p : Prog) : holds p (model p) = true := by
+  obtain ⟨pre, hf⟩ := final_sem p
+  obtain ⟨⟨hi, _⟩, hcr, _⟩ := end_state p
+  obtain ⟨X, hX1, hX2, hX3, hX4⟩ := events_shape p pre hf
+  obtain ⟨m1, m2, m3, m4, m5, m6, m7⟩ := model_fields p
+  have hlen : pre.length = (model p).stages.length := by rw [m4]; exact hf.len
+  obtain ⟨t1, t2, t3, t4, t5⟩ := spec_terms p (model p) pre (future p (afterIter p).u) hf.path hlen
+  have hout := outcome_of_shape hX1
+  -- in time ⇔ a result was recorded
+  have hin : inTime p (model p) = true ↔ ∃ b, (afterIter p).sp.success = some b := by
+    rw [hf.rec_iff, inTime, Bool.and_eq_true, t2, t3, m4]
+  have hvalue : (∃ b, (afterIter p).sp.success = some b) ↔ ∃ b, getResult (afterIter p).sp = .value b := by
+    rcases result_cases hi with h | h | h
+    · simp [h.2.1, h.2.2]
+    · simp [h.2.1, h.2.2]
+    · obtain ⟨b, hb1, hb2⟩ := h.2
+      simp [hb1, hb2]
+  simp only [holds, clauses, List.all_cons, List.all_nil, Bool.and_true, Bool.and_eq_true]
+  refine ⟨?_, ?_, ?_, ?_, ?_⟩
+  · -- bracket
+    simp [cBracket, hX1, hX2, m3]
+  · -- sequential
+    rw [t5, m4]; exact hf.seq
+  · -- success-iff
+    simp only [cSuccessIff, hout, t1, t4, m5]
+    by_cases hrec : ∃ b, (afterIter p).sp.success = some b
+    · obtain ⟨b, hb⟩ := hrec
+      have hv := value_meaning p pre hf b hb
+      have hi' : inTime p (model p) = true := hin.mpr ⟨b, hb⟩
+      rw [hi']
+      have hl : (some X == some Ev.success) = true ↔ (finalAccount p).successful = true := by
+        rw [← hX3]; simp
+      have hr : (true && ((pre.map (·.2)).all fun st => behOk st.beh) && !(sidesOf pre).contains Side.expect
+          && loggedLeft (sidesOf pre) == 0 && !(sidesOf pre).contains Side.dropfailed
+          && ((afterIter p).calls.filter isLeftover).length == 0) = true ↔ (finalAccount p).successful = true := by
+        rw [hv]
+        simp only [Bool.true_and, Bool.and_eq_true, Bool.not_eq_true', beq_iff_eq, and_assoc]
+      rw [Bool.eq_iff_iff.mpr (hl.trans hr.symm)]
+      simp
+    · have hi' : inTime p (model p) = false := by
+        cases h : inTime p (model p) with
+        | false => rfl
+        | true => exact absurd (hin.mp h) hrec
+      have hXe : X = .error := hX4 (fun b hb => hrec (hvalue.mpr ⟨b, hb⟩))
+      simp [hi', hXe]
+  · -- timeout-interrupt
+    simp only [cTimeoutInterrupt, hout, m2]
+    by_cases hrec : ∃ b, (afterIter p).sp.success = some b
+    · have hi' : inTime p (model p) = true := hin.mpr hrec
+      obtain ⟨b, hb⟩ := hvalue.mp hrec
+      have := (account_value b (afterIter p).u.excs (afterIter p).u.logged (afterIter p).u.dropped
+        (!(leftovers (afterIter p)).isEmpty)).1
+      simp [hi', finalAccount, hb, this]
+    · have hi' : inTime p (model p) = false := by
+        cases h : inTime p (model p) with
+        | false => rfl
+        | true => exact absurd (hin.mp h) hrec
+      have hnv : ∀ b, getResult (afterIter p).sp ≠ .value b := fun b hb => hrec (hvalue.mpr ⟨b, hb⟩)
+      have hXe : X = .error := hX4 hnv
+      obtain ⟨_, _, _, o4⟩ := account_other _ hnv (afterIter p).u.excs (afterIter p).u.logged (afterIter p).u.dropped
+        (!(leftovers (afterIter p)).isEmpty)
+      have hstop : (finalAccount p).stopReq = p.stops.any (fun s => decide (s < p.timeout)) := by
+        simp only [finalAccount, o4]
+        have hp := hf.pending_iff
+        have hnot : ¬ (future p (afterIter p).u = [] ∧ InTimeP p pre (afterIter p).u.stages) := fun h => hrec (hf.rec_iff.mpr h)
+        rcases result_cases hi with h | h | h
+        · rw [h.2.2]
+          have := (hp.mp h.1).2
+          simp only [beq_self_eq_true]
+          symm
+          simpa [List.any_eq_true] using this
+        · rw [h.2.2]
+          have hnp : ¬ (afterIter p).sp.tcall = .pending := by rw [h.1]; simp
+          have : ¬ ∃ s ∈ p.stops, s < p.timeout := fun h' => hnp (hp.mpr ⟨hnot, h'⟩)
+          have h2 : p.stops.any (fun s => decide (s < p.timeout)) = false := by
+            cases ha : p.stops.any (fun s => decide (s < p.timeout)) with
+            | false => rfl
+            | true => exact absurd (by simpa [List.any_eq_true] using ha) this
+          rw [h2]; rfl
+        · obtain ⟨b, hb1, _⟩ := h.2
+          exact absurd ⟨b, hb1⟩ hrec
+      simp [hi', hXe, hstop]
+  · -- clean-after
+    have hobs : ∀ e ∈ (model p).stages, e.2.2 = duringCount p := by
+      intro e he
+      rw [m4] at he
+      rw [hf.book.obs e he, (static_end p).2, duringObs_length]
+    simp only [cCleanAfter, m6, m7, afterObs_eq, beq_self_eq_true, Bool.and_true, Bool.true_and, List.all_eq_true, beq_iff_eq]
+    exact hobs
+
 end TTV.Props.C14
